@@ -123,7 +123,10 @@ def target_case(draw):
             # the returned environment (DIP(env)); 0 = everything in one parse
             "split": draw(st.sampled_from([0, 0, 0, 1, 2])),
             # an earlier, unrelated parse in the same process that defined the custom unit of the same name differently
-            "prelude": draw(st.sampled_from([None, "7", "0.5"])) if use_custom else None}
+            "prelude": draw(st.sampled_from([None, "7", "0.5"])) if use_custom else None,
+            # the definition's value may come from a SLICED reference to a helper array; later assignments are plain
+            "first_by_slice": (not declared) and first != "none" and kind in ("float", "int", "farray") and fail is None
+                              and draw(st.integers(0, 4)) == 0}
 
 
 def strategies(tier):
@@ -152,6 +155,15 @@ def render_stages(case):
     head = " " * (w * d) + f"{case['name']} {case['type']}{dimtxt}"
     if case["declared"]:
         lines.append(head + (f" {case['unit']}" if case["unit"] else ""))
+    elif case.get("first_by_slice"):
+        u_ = f" {case['unit']}" if case["unit"] else ""
+        if case["kind"] == "farray":
+            inner = case["first"].strip()[1:-1]
+            lines.insert(1 if not case["custom"] else 2, f"hsrc float[5] = [9,{inner},8]{u_}")
+            lines.append(head + " = {?hsrc}[1:4]")
+        else:
+            lines.insert(1 if not case["custom"] else 2, f"hsrc {case['type']}[3] = [9,{case['first']},8]{u_}")
+            lines.append(head + " = {?hsrc}[1]")
     else:
         lines.append(head + f" = {case['first']}" + (f" {case['unit']}" if case["unit"] else ""))
     if case["fail"] == "constant":
@@ -290,7 +302,7 @@ def _check(case, v):
     keys = list(tup)
     if keys.count(path) != 1:
         return v.fail("entries", f"{path} appears {keys.count(path)} times in {keys}:\n{text}")
-    want_order = ["before", path]
+    want_order = ["before"] + (["hsrc"] if case.get("first_by_slice") else []) + [path]
     for i, m in enumerate(case["mods"]):
         if m.get("via_ref"):
             want_order.append(f"helper{i}")
@@ -347,4 +359,6 @@ def _check(case, v):
         v.label("final_none")
     if any(m.get("via_ref") for m in case["mods"]):
         v.label("value_by_reference")
+    if case.get("first_by_slice"):
+        v.label("definition_by_sliced_reference")
     v.info = {"text": text}
